@@ -231,7 +231,7 @@ class Mini:
 
     # ------------------------------------------------------------------ expressions
     def truth(self, v: Any) -> bool:
-        if isinstance(v, (bool, int, str, list, tuple, type(None), range)):
+        if isinstance(v, (bool, int, str, list, tuple, type(None), range, set, dict)):
             return bool(v)
         raise Unsupported(f"truth value of {type(v).__name__}")
 
@@ -443,6 +443,29 @@ class Mini:
                         return None
                 except IndexError:
                     raise Raised("IndexError")
+            if isinstance(recv, list) and m == "popleft" and not args:
+                if not recv:
+                    raise Raised("IndexError")
+                return recv.pop(0)
+            if isinstance(recv, list) and m == "appendleft" and len(args) == 1:
+                recv.insert(0, args[0])
+                return None
+            if isinstance(recv, set):
+                if m == "add" and len(args) == 1 and isinstance(args[0], (int, str, tuple)):
+                    recv.add(args[0])
+                    return None
+                if m == "discard" and len(args) == 1:
+                    recv.discard(args[0])
+                    return None
+            if isinstance(recv, dict):
+                if m == "get" and 1 <= len(args) <= 2 and isinstance(args[0], (str, int)):
+                    return recv.get(args[0], args[1] if len(args) == 2 else None)
+                if m == "items" and not args:
+                    return [tuple(x) for x in recv.items()]
+                if m == "keys" and not args:
+                    return list(recv.keys())
+                if m == "values" and not args:
+                    return list(recv.values())
             if isinstance(recv, str):
                 if m == "join" and len(args) == 1 and isinstance(args[0], (list, tuple)) and all(isinstance(x, str) for x in args[0]):
                     return recv.join(args[0])
@@ -496,6 +519,8 @@ class Mini:
                 src = args[0] if args else []
                 if isinstance(src, (list, tuple, range)):
                     return list(src) if f == "list" else tuple(src)
+            if f == "set" and len(args) <= 1 and (not args or isinstance(args[0], (list, tuple, set, range))):
+                return set(args[0]) if args else set()
             if f == "reversed" and len(args) == 1 and isinstance(args[0], (list, tuple)):
                 return list(reversed(args[0]))
             if f == "str" and len(args) == 1 and isinstance(args[0], (str, int)):
